@@ -85,6 +85,12 @@ class Inconclusive(Exception):
     pass
 
 
+class FailFast(BaseException):
+    """Self-test only (VERIF_FAILFAST=1): stop the shard at the first violation that is not a recorded known finding, so that a mutation
+    campaign of thousands of runs does not pay for the rest of the workload.  Derives from BaseException so that no `except Exception`
+    around observed code swallows it.  Never set by a registered check."""
+
+
 # --------------------------------------------------------------------------- context
 class Ctx:
     """Everything a property driver needs: RNG, budgets, monitors, verdict bookkeeping."""
@@ -164,6 +170,8 @@ class Ctx:
                  "seed": self.seed, "shard": self.shard, "rng_key": getattr(self, "_last_key", None),
                  "data": jsonable(data) if data is not None else None}
         self.violations.append(entry)
+        if os.environ.get("VERIF_FAILFAST") and not match_known(entry, load_known()):
+            raise FailFast(key)
 
     def check(self, monitor, ok, key, what="", data=None):
         m = self.mon(monitor)
